@@ -258,6 +258,18 @@ func ZZ_L1() {
 			return
 		}
 		zzCheckLifecycle(mon, alive)
+		if alive && len(pills) == 0 && !budgetHit {
+			// messages sent to the PID since Spawn registered it are retained and delivered (the drain above has
+			// offered every queued batch for as long as the inbox was open): none may be left behind, also after a
+			// restart caused by a panic in Initialized / Started
+			n := 0
+			for _, r := range mon.recs {
+				if r.kind == zzKUser {
+					n++
+				}
+			}
+			zzrt.Assert(n >= len(sent), "C04:message-sent-to-a-live-actor-never-delivered")
+		}
 	case 7:
 		zzrt.Assume(!budgetHit)
 		if escaped {
